@@ -52,11 +52,11 @@ func hc10Export(ctx context.Context, dir string) map[[48]byte]*rules.SlashingPro
 func hc10Key(k [48]byte) string { return fmt.Sprintf("%#x", k[:]) }
 
 type hc10FileEntry struct {
-	key        int // index into hc.Keys
-	hasAtt     bool
-	s, t       int64
-	hasBlock   bool
-	slot       int64
+	key      int // index into hc.Keys
+	hasAtt   bool
+	s, t     int64
+	hasBlock bool
+	slot     int64
 }
 
 // hc10Merge: an interchange file with `n` entries over keys {K1,K2} (repeats allowed), each with
